@@ -56,6 +56,7 @@ type FuncContract struct {
 	Appends      []*AppendClause
 	AllowGlobals bool      // frame: package-level state (the atomic id counter) may change
 	InlineCalls  bool      // calls to library functions are executed, not abstracted by their contracts (lemma functions)
+	ThoroughOnly bool      // checked in the thorough tier only (larger instance lemmas)
 	Recurse      int       // lemma functions: a function already on the inline stack may be inlined again this many times (nested containers)
 	Unroll       int       // lemma functions: loops of inlined callees are unrolled up to this many header visits, with an unwinding obligation
 	ModReach     bool      // frame: everything reachable from the receiver may change (decoders fill owned buffers)
@@ -492,6 +493,21 @@ func (db *ContractDB) parseFile(pkg, file string) {
 			rest = m[3]
 		}
 		mkClause := func(text string) *Clause {
+			// optional stable label: "@name: expr" (the obligation is then post:name instead of post:<ordinal>)
+			label := ""
+			if strings.HasPrefix(text, "@") {
+				if j := strings.Index(text, ": "); j > 0 {
+					label, text = text[1:j], strings.TrimSpace(text[j+2:])
+				}
+			}
+			if label != "" {
+				e, err := parseSpecExpr(text)
+				if err != nil {
+					db.errf(ln, "cannot parse %q: %v", text, err)
+					return nil
+				}
+				return &Clause{Text: text, Expr: e, Props: cprops, Line: ln, Label: label}
+			}
 			e, err := parseSpecExpr(text)
 			if err != nil {
 				db.errf(ln, "cannot parse %q: %v", text, err)
@@ -684,6 +700,8 @@ func (db *ContractDB) parseFile(pkg, file string) {
 				}
 			case "trusted":
 				curF.Trusted = true
+			case "thoroughonly":
+				curF.ThoroughOnly = true
 			case "inline":
 				curF.InlineOnly = true
 			case "nosafety":
